@@ -8,17 +8,24 @@ import HexVerif.Lemmas.XcmpExec
 namespace Hex.C01s
 open Hex Hex.X Hex.Xcmp
 
-/-- Expressions of stage (2): literals, names, monadic and diadic operators. -/
+/-- Expressions of stage (2): literals (numbers, truth values, strings), names, subscripts, monadic and
+    diadic operators. -/
 def pureE : X.Expr → Bool
-  | .num _ | .bool _ | .name _ => true
+  | .num _ | .bool _ | .name _ | .str _ => true
   | .un _ e => pureE e
   | .bin _ l r => pureE l && pureE r
   | .sub _ i => pureE i
   | _ => false
 
+/-- The system-call id `ConstProp` finds for a called name (`-1`: none, a user call). -/
+def sysOf (ρ : String → Option Word) (f : String) : Int :=
+  match ρ f with
+  | some w => w.toInt
+  | none => -1
+
 mutual
-/-- `ConstProp` on an expression without `val`-named system calls, given the constant each name
-    denotes (`lookupVal`). -/
+/-- `ConstProp` on an expression, given the constant each name denotes (`lookupVal`); a call through
+    the name of a constant is the system call with that number. -/
 def annotate (ρ : String → Option Word) : X.Expr → AExpr
   | .num v => .num v (some v)
   | .bool b => .bool b (some (Xcmp.b2w b))
@@ -31,8 +38,8 @@ def annotate (ρ : String → Option Word) : X.Expr → AExpr
        | _, _ => none)
   | .str bs => .str bs
   | .sub n i => .sub n (annotate ρ i)
-  | .call f args => .call (-1) f (annotateL ρ args)
-  | .syscall _ _ => .call (-1) "" []            -- outside the fragment
+  | .call f args => .call (sysOf ρ f) f (annotateL ρ args)
+  | .syscall id args => .call (sysIdOfNat id) "" (annotateL ρ args)
 def annotateL (ρ : String → Option Word) : List X.Expr → List AExpr
   | [] => []
   | e :: es => annotate ρ e :: annotateL ρ es
@@ -154,6 +161,23 @@ theorem eval_name (fuel : Nat) (xc : X.Ctx) (n : String) (σ : X.St) (r : Val) (
     obtain ⟨h1, h2⟩ := liftE_ok _ _ _ _ h
     subst h2
     exact ⟨rfl, h1⟩
+
+/-- A string literal: its packed words. -/
+theorem eval_str (fuel : Nat) (xc : X.Ctx) (bs : List Byte) (σ : X.St) (r : Val) (σ' : X.St)
+    (h : X.eval (fuel + 1) xc (.str bs) σ = .ok r σ') :
+    ∃ ws, X.tick xc σ = some σ' ∧ X.packString bs = .ok ws ∧ r = .arr (.lit ws) := by
+  unfold X.eval at h
+  cases ht : X.tick xc σ with
+  | none => rw [ht] at h; simp at h
+  | some st =>
+    rw [ht] at h
+    simp only at h
+    cases hp : X.packString bs with
+    | error e => rw [hp] at h; simp [X.liftE, Res.bind] at h
+    | ok ws =>
+      rw [hp] at h
+      simp only [X.liftE, Res.bind, Res.ok.injEq] at h
+      exact ⟨ws, by rw [← h.2], rfl, h.1.symm⟩
 
 /-- A subscript: the index, then the array the name denotes, then the element. -/
 theorem eval_sub (fuel : Nat) (xc : X.Ctx) (n : String) (i : X.Expr) (σ : X.St) (r : Val) (σ' : X.St)
@@ -333,7 +357,7 @@ theorem eval_pure (xc : X.Ctx) : ∀ (fuel : Nat) (e : X.Expr) (σ : X.St) (v : 
           rcases h4 with ⟨_, hv, hs⟩ | ⟨_, b, h5, _, hv⟩
           · subst hs; exact (tick_same _ _ _ h1).trans (ih _ _ _ _ hp.1 h2)
           · exact ((tick_same _ _ _ h1).trans (ih _ _ _ _ hp.1 h2)).trans (ih _ _ _ _ hp.2 h5)
-    | str bs => simp [pureE] at hp
+    | str bs => obtain ⟨_, h1, _⟩ := eval_str _ _ _ _ _ _ h; exact tick_same _ _ _ h1
     | sub n i =>
       simp only [pureE] at hp
       obtain ⟨st, iv, ar, w, h1, h2, _⟩ := eval_sub _ _ _ _ _ _ _ h
@@ -458,7 +482,7 @@ theorem annot_sound (ρ : String → Option Word) (xc : X.Ctx) : ∀ (fuel : Nat
                 rw [hvv, ← hc, ← ea, ← eb, ha0]
                 simp only [foldBin]
                 rcases isBool_cases b hbb with hb | hb <;> simp [hb]
-    | str bs => simp [pureE] at hp
+    | str bs => simp [annotate] at hc
     | sub n i => simp [annotate] at hc
     | call f args => simp [pureE] at hp
     | syscall id args => simp [pureE] at hp
